@@ -6,7 +6,8 @@ package harness
 // a report is a function of the tape. Reports are parsed and filtered by
 // verifctl (both racing accesses must be made by fasthttp code).
 
-var c37Subs = []string{"C04", "C11", "C12", "C15", "C16", "C18", "C22", "C25", "C38", "C40", "C41", "C13", "C03", "C10", "C17", "C21"}
+var c37Subs = []string{"C04", "C11", "C12", "C15", "C16", "C18", "C22", "C25", "C38", "C40", "C41", "C13", "C03", "C10", "C17", "C21",
+	"C02", "C20", "C24", "C33", "C34", "C35", "C36"}
 
 func init() { scenarios["C37"] = scenC37 }
 
